@@ -133,7 +133,7 @@ Definition fits_bits (n : Z) (v : Z) : bool := bitlen v <=? n.
 Definition nz (b : Z) (r : Z * Z) : Z * Z := if b =? 0 then (2, 0) else r.
 Definition nofail (v : Z) : Z * Z := (0, v).
 
-Definition spec (o : op) (a b k : Z) : option (Z * Z) :=
+Definition vspec (o : op) (a b k : Z) : option (Z * Z) :=
   match o with
   | OBD_Add | OBD_AddMut => Some (chk_bd (bd_add a b))
   | OBD_Sub | OBD_SubMut => Some (chk_bd (bd_sub a b))
@@ -205,7 +205,7 @@ Fixpoint zlist_prefix (a b : list Z) : bool :=
 
 Definition spec_ok (c : case) : bool :=
   if c_alias c && is_mut (c_op c) then true else
-  match spec (c_op c) (c_a c) (if c_alias c then c_a c else c_b c) (c_k c) with
+  match vspec (c_op c) (c_a c) (if c_alias c then c_a c else c_b c) (c_k c) with
   | Some (p, r) => zlist_prefix ([p] ++ enc_val (c_full c) r) (c_expect c)
   | None => true
   end.
